@@ -532,11 +532,14 @@ pub struct FdeSpec {
     pub func_base: Option<u64>,
     pub insns: Vec<Insn>,
     pub align: usize,
+    /// bytes of augmentation data beyond what the augmentation letters define (a 'z' FDE's
+    /// augmentation length may cover more than the consumer knows; it must skip them)
+    pub aug_extra: usize,
 }
 
 impl FdeSpec {
     pub fn simple(cie_off: usize, start: u64, len: u64, insns: Vec<Insn>, align: usize) -> FdeSpec {
-        FdeSpec { fmt64: false, cie_off, start: Ptr::Target(start), len, lsda: Ptr::Target(0), func_base: Some(start), insns, align }
+        FdeSpec { fmt64: false, cie_off, start: Ptr::Target(start), len, lsda: Ptr::Target(0), func_base: Some(start), insns, align, aug_extra: 0 }
     }
 }
 
@@ -714,6 +717,8 @@ impl Builder {
                 lsda_rel = Some(0usize);
                 put_raw(&mut data, cie.lsda_enc, raw, cie.addr);
             }
+            // would decode as def_cfa_offset 64; def_cfa_offset 80; nop if it were not skipped
+            data.bytes(&[0x0e, 0x40, 0x0e, 0x50, 0x00][..f.aug_extra.min(5)]);
             assert!(data.len() < 0x80);
             self.e.uleb(data.len() as u64);
             let dpos = self.e.len();
